@@ -158,7 +158,7 @@ def run_check(prop_id, tier, harnesses, level_explanation, trusted_base=(), extr
                     real = h.real_replay(p)
                 except Exception as ex:
                     real = (False, f'real replay raised {ex!r}')
-                if real is not None and not real[0]:
+                if real is not None and not real[0] and len(real) > 2 and real[2] == 'authoritative':
                     problems.append(f'{h.name}: counterexample reproduced on the harness but not on the real library: {real[1]} ({p["signature"]})')
                     continue
             p['detail'] = rp['detail']   # concrete values instead of <sym>
